@@ -23,6 +23,9 @@ CLAIMED = {
     "C06": ("CrossHair/z3 symbolic execution of all clock rule bodies (am/pm, military, named, quarter/half, hour+part of day) and of _latent_tod vs. exact contracts; group stub for regex groups",
             "Trusted: regex group texts denote the stub's integers (token lemmas), CrossHair's datetime model, ranking (replay only). Bounds: all hours/minutes/13 am-pm spellings/all table parts of day; latent anchoring over 24 year-month cells quick, 336 thorough.",
             "§5 C06"),
+    "C02": ("CrossHair/z3 symbolic execution of every registered rule wrapper on every admissible argument-shape tuple: inductive invariant WF (one step from an arbitrary well-formed state); shape closure as solver-checked fixpoint",
+            "Trusted: regex engine contract (group texts lie in their group's language; ranges derived from the live pattern AST), CrossHair's datetime model. Not covered: ruleDOWDOM (rrule). Bounds: top-level years 1880..2109; quick: <= 4 shape tuples per rule, 6 parts of day, date-arithmetic rules on the cell 2024-02 with amounts <= 40; thorough: all tuples, all parts of day for single-POD obligations, 4 cells, amounts <= 120.",
+            "§4 WF, §5 C02"),
 }
 
 NOT_YET = {}
